@@ -251,9 +251,22 @@ def _cast_vec(ctx, v: Vec, dt):
     return out
 
 
-@lib("numpy.zeros", "numpy.ones", "numpy.empty")
+@lib("numpy.zeros", "numpy.empty")
 def np_zeros(interp, args, kwargs):
-    raise Unsupported("np.zeros/ones/empty")
+    shape = args[0] if args else kwargs.get("shape")
+    zero = Num(z3.RealVal(0), False)
+    if isinstance(shape, Tup) and len(shape.items) == 2:
+        r, c = shape.items
+        rr, cc = conc(r.z), conc(c.z)
+        return Mat(rr if rr is not None else z3.simplify(r.z), cc if cc is not None else z3.simplify(c.z), lambda i, j: zero, elem="real")
+    if isinstance(shape, Num):
+        L = conc(shape.z)
+        return Vec(L if L is not None else shape.z, lambda k: zero, kind="ndarray", elem="real")
+    if isinstance(shape, Tup) and len(shape.items) == 1:
+        n = shape.items[0]
+        L = conc(n.z)
+        return Vec(L if L is not None else n.z, lambda k: zero, kind="ndarray", elem="real")
+    raise Unsupported("np.zeros shape")
 
 
 @lib("numpy.full")
@@ -727,6 +740,23 @@ def _mat_setitem(interp, self: Mat, args, kwargs):
         iz = zint(i)
         self.buf.write(lambda a, b: ite_val(zint(a) == iz, src(b), old(a, b)))
         return NONE
+    if isinstance(idx, tuple) and idx[0] == "slice" and (idx[3] is None or isinstance(idx[3], NoneV)):
+        # M[a:b] = other  (rows a..b-1 from a matrix of matching shape, or a broadcast row / scalar)
+        from .lib_py import slice_bounds
+        start, count, st = slice_bounds(interp, idx[1], idx[2], idx[3], self.rows)
+        sz, cz = zint(start), zint(count)
+        old = self.buf.fn
+        if isinstance(val, Mat):
+            for x, y, w in ((val.rows, count, "rows"), (val.cols, self.cols, "columns")):
+                if not ctx.branch(zint(x) == zint(y), f"slice-assign-{w}"):
+                    raise PyRaise("ValueError", "could not broadcast input array into shape")
+            src = val.buf.fn
+            self.buf.write(lambda a, b: ite_val(z3.And(zint(a) >= sz, zint(a) < sz + cz), src(z3.simplify(zint(a) - sz), b), old(a, b)))
+            return NONE
+        if isinstance(val, (Num, Bool)):
+            self.buf.write(lambda a, b: ite_val(z3.And(zint(a) >= sz, zint(a) < sz + cz), val, old(a, b)))
+            return NONE
+        raise Unsupported("row-range assignment of this value")
     if isinstance(idx, tuple) and idx[0] == "tuple" and len(idx[1]) == 2 and all(isinstance(p, Num) for p in idx[1]):
         i = norm_index(ctx, idx[1][0], self.rows, "row index")
         j = norm_index(ctx, idx[1][1], self.cols, "column index")
